@@ -1674,6 +1674,14 @@ package mcp
 //@   assert at call WriteString: @fields-come-before-the-data $1 == "data: " ==> calls(payload) == 0 && calls(idLine) == (evt.ID != "" ? 1 : 0)
 //@   assert at call (*Buffer).Write: @data-prefix-first calls(text) == 1
 //@   assert at call w.Write: @the-event-is-complete-when-written calls(text) == 2 && calls(payload) == 1
+// InputRequestMap.UnmarshalJSON (C19: decoding never panics on arbitrary bytes): a server-chosen "inputRequests" object -
+// null entries, unknown methods, undecodable params - yields a value or an error, never a panic.
+//@ func (*InputRequestMap).UnmarshalJSON [C19]
+//@   nopanic
+//@   requires m != nil
+//@   modifies *
+//@   loop 1: invariant @still-decoding local(result) != nil
+
 // readBatch (C19: decoding never panics on arbitrary bytes): whatever the payload - empty, blank, truncated, not JSON
 // at all - the function returns (messages or an error); a batch has exactly one decoded message per element, in
 // order, and a decoding error of any element fails the whole batch.
